@@ -396,8 +396,20 @@ class Grid(object):
                       + f" data has {ncols}, but expects {self.ncols}."
             raise ValueError(errmess)
 
-        self._data = np.clip(_value, self.mindata,
-                             self.maxdata).astype(self.dtype)
+        self._data = self._clip(_value)
+
+    def _clip(self, value):
+        """ Clip data to [mindata, maxdata] and convert to grid dtype.
+        Infinite bounds are skipped to avoid converting integer
+        data to float (which is not exact for large integers).
+        """
+        if self.mindata > -np.inf:
+            value = np.maximum(value, self.mindata)
+
+        if self.maxdata < np.inf:
+            value = np.minimum(value, self.maxdata)
+
+        return np.asarray(value).astype(self.dtype)
 
     @property
     def nodata(self):
@@ -509,8 +521,7 @@ class Grid(object):
                       + f" expecting {nval}."
             raise ValueError(errmess)
 
-        self._data = np.clip(data.reshape((self.nrows, self.ncols)),
-                             self.mindata, self.maxdata).astype(self.dtype)
+        self._data = self._clip(data.reshape((self.nrows, self.ncols)))
 
     def to_dict(self):
         """ Export grid metadata to json """
